@@ -9,7 +9,7 @@ extern "C" {
 using namespace vf;
 
 struct Case {
-  int prog = 1;       // 1 raw pool API, 2 pooled writer, 3 pooled sorter
+  int prog = 1;       // 1 raw pool API, 2 pooled writer, 3 pooled sorter, 4 two pooled writers sharing one pool from two caller threads
   int m = 1;          // pool size
   int n = 2;          // jobs per caller (prog 1) / blocks (prog 2) / chunks (prog 3)
   int ordered = 1;    // prog 1
@@ -19,7 +19,7 @@ struct Case {
   int max_spurious = 0;
   std::vector<int> tape;
   bool valid() const {
-    return prog >= 1 && prog <= 3 && m >= 1 && m <= 8 && n >= 0 && n <= 12 && callers >= 1 && callers <= 2 && action >= 0 && action <= 5 && max_spurious >= 0 &&
+    return prog >= 1 && prog <= 4 && m >= 1 && m <= 8 && n >= 0 && n <= 12 && callers >= 1 && callers <= 2 && action >= 0 && action <= 5 && max_spurious >= 0 &&
            max_spurious <= 3 && tape.size() <= 4000;
   }
   std::string ser() const {
@@ -89,6 +89,31 @@ static std::string check_log(const Caller &c, const char *who) {
   return "";
 }
 
+struct WJob {
+  struct mtbl_threadpool *tp;
+  int comp, blocks, salt;
+  bytes out;
+  bool refused = false;
+};
+static KVs writer_entries(int blocks);
+static void *pooled_writer_body(void *p) {
+  WJob *j = (WJob *)p;
+  KVs kv = writer_entries(j->blocks);
+  for (auto &e : kv) e.second[0] = (char)('A' + j->salt);
+  struct mtbl_writer_options *wo = mtbl_writer_options_init();
+  mtbl_writer_options_set_compression(wo, (mtbl_compression_type)j->comp);
+  mtbl_writer_options_set_block_size(wo, 1024);
+  mtbl_writer_options_set_threadpool(wo, j->tp);
+  int fd = new_memfd("vf-c13w");
+  struct mtbl_writer *w = mtbl_writer_init_fd(fd, wo);
+  mtbl_writer_options_destroy(&wo);
+  for (auto &e : kv)
+    if (mtbl_writer_add(w, U(e.first), e.first.size(), U(e.second), e.second.size()) != mtbl_res_success) j->refused = true;
+  mtbl_writer_destroy(&w);
+  j->out = fd_contents(fd);
+  close(fd);
+  return nullptr;
+}
 static KVs writer_entries(int blocks) {
   KVs kv;
   for (int i = 0; i < blocks * 3; i++) {
@@ -150,6 +175,27 @@ static std::string execute(const Case &c, std::vector<vs::Choice> *trace_out, lo
       err = "file written with a pool differs from the file written without one (first difference at offset " + std::to_string(i) + " of " + std::to_string(ref_img.size()) + ")";
     }
     bound = 1 + 1 + c.m;
+  } else if (c.prog == 4) {
+    // reference outputs without a pool were computed by the caller of execute() (see below)
+    struct mtbl_threadpool *tp = mtbl_threadpool_init((size_t)c.m);
+    WJob a{tp, c.action % 6, c.n, 0, bytes(), false}, b{tp, c.action % 6, c.n > 1 ? c.n - 1 : 1, 1, bytes(), false};
+    pthread_t t2;
+    vs_create(&t2, nullptr, pooled_writer_body, &b);
+    pooled_writer_body(&a);
+    vs_join(t2, nullptr);
+    mtbl_threadpool_destroy(&tp);
+    for (WJob *j : {&a, &b}) {
+      KVs kv = writer_entries(j->blocks);
+      for (auto &e : kv) e.second[0] = (char)('A' + j->salt);
+      WConfig wc;
+      wc.comp = j->comp;
+      wc.block_size = 1024;
+      // the un-pooled reference writer makes no pthread call, so it may run while the scheduler is active
+      bytes want = fd_contents(write_table(wc, kv));
+      if (j->refused) err = "pooled writer refused an increasing key";
+      else if (j->out != want && err.empty()) err = std::string("writer ") + (j->salt ? "2" : "1") + " sharing the pool: output differs from the un-pooled writer's";
+    }
+    bound = 2 + 2 + c.m;
   } else {
     ensure_tmpdir();
     std::string tdir = g_tmpdir + "/c13-" + std::to_string(getpid());
@@ -231,7 +277,7 @@ static Result run_case(const Case &c) {
   r.tag("prog_" + std::to_string(c.prog));
   if (pre > 0) r.tag("preempted");
   if (pre >= 3) r.tag("preemptions_ge3");
-  if (c.callers == 2) r.tag("two_callers_sharing_pool");
+  if (c.callers == 2 || c.prog == 4) r.tag("two_callers_sharing_pool");
   if (c.prog == 1 && !c.ordered) r.tag("unordered");
   if (c.prog == 1 && c.n > c.m) r.tag("pool_saturated");
   if (c.max_spurious) r.tag("spurious_wakeups_allowed");
@@ -241,9 +287,9 @@ static Result run_case(const Case &c) {
 
 static Case gen_case() {
   Case c;
-  c.prog = weighted({50, 25, 25}) + 1;
+  c.prog = weighted({42, 22, 22, 14}) + 1;
   c.m = weighted({40, 35, 15, 10}) + 1;
-  c.n = c.prog == 1 ? pick(0, 6) : c.prog == 2 ? pick(1, 6) : pick(1, 5);
+  c.n = c.prog == 1 ? pick(0, 6) : c.prog == 2 ? pick(1, 6) : c.prog == 3 ? pick(1, 5) : pick(1, 4);
   c.ordered = chance(55);
   c.callers = c.prog == 1 && chance(40) ? 2 : 1;
   c.action = pick(0, 5);
@@ -262,9 +308,9 @@ static int extra_modes(const WorkerOpts &o, Stats &stats) {
   long cap = o.geti("cap", 30000);
   // program family; worker w takes members w, w+W, ...
   std::vector<Case> fam;
-  for (int prog = 1; prog <= 3; prog++)
+  for (int prog = 1; prog <= 4; prog++)
     for (int m = 1; m <= 2; m++)
-      for (int n = (prog == 1 ? 0 : 1); n <= 3; n++)
+      for (int n = (prog == 1 ? 0 : 1); n <= (prog == 4 ? 2 : 3); n++)
         for (int var = 0; var < (prog == 1 ? 4 : prog == 3 ? 3 : 1); var++) {
           Case c;
           c.prog = prog;
